@@ -229,7 +229,14 @@ def run(tier):
                 chk.violation('%s:regenerated:registry' % db, 'regenerated registry differs from the shipped one: %s' % sorted(set(sz) ^ set(gz))[:8], {})
             for zn in sorted(set(sz) & set(gz)):
                 a, b = sz[zn], gz[zn]
-                for f in ('zoneId', 'bufSize', 'startYear', 'untilYear'):
+                # (transitionBufSize is not an encoding of a recorded line but the output of the buffer estimator: its adequacy,
+                #  for shipped and regenerated tables alike, is C09's clause; a regenerated size may exceed the shipped one
+                #  since the estimator fix 058f3f7 and is only noted)
+                if a['bufSize'] != b['bufSize']:
+                    chk.notes.append('%s %s: shipped transitionBufSize %s, regenerated %s' % (db, zn, a['bufSize'], b['bufSize']))
+                    if b['bufSize'] < a['bufSize']:
+                        chk.violation('%s:regenerated:bufSize-smaller' % db, 'zone %s: the generator now records a smaller transitionBufSize (%s) than the shipped table (%s)' % (zn, b['bufSize'], a['bufSize']), {'zone': zn})
+                for f in ('zoneId', 'startYear', 'untilYear'):
                     if a[f] != b[f]:
                         chk.violation('%s:regenerated:%s' % (db, f), 'zone %s: shipped %s = %s, regenerated %s' % (zn, f, a[f], b[f]), {'zone': zn, 'field': f})
                 ea = [dict(e, policy=(shipped['policies'][e['policy']] if e['policy'] >= 0 else None)) for e in a['eras']]
